@@ -116,3 +116,1006 @@ Proof.
   - unfold wf_rows. repeat constructor; simpl; lia.
   - repeat split; vm_compute; reflexivity.
 Qed.
+
+(* -------------------------------------------------------------------------------------------------- *)
+(** * Corollaries for the REAL kernel models: X_equivariant := X_exact o spec_equivariant_X
+    (Proofs/EquivarianceProofs.v).  For every kernel that another property proved exact against a textbook
+    specification, the specification is shown invariant / equivariant under [perm_graph p] / [perm_wrows p] and
+    the statement about the coded model follows through the exactness theorem; iteration models (power iteration,
+    Horner, diffusion, Dirichlet) are shown to commute with the renumbering step by step (Leibniz equality: the
+    models store reduced fractions).  The model modules are only Required (their names clash: wrow, entry, result,
+    matvec ...): statements use qualified names such as [Topology.count_triangles], [PageRank.is_pagerank]. *)
+From SKN Require Model.Topology Model.PageRank Proofs.PageRankProofs Model.Centrality Proofs.CentralityProofs Proofs.BrandesProofs Model.Modularity Proofs.ModularityProofs Model.Dendrogram Model.Cuts Proofs.CutsProofs Model.Diffusion Proofs.DiffusionProofs Model.Vote Proofs.VoteProofs Proofs.EquivarianceProofs.
+Set Warnings "-notation-overridden".
+
+(** 9. Topology kernels (Model/Topology.v: triangles.pyx, cliques.pyx, core.pyx + minheap.pyx with the front
+    ends directed2undirected / get_dag).  Each statement about the CODE is the composition of the exactness
+    theorem of C11 with the invariance of the textbook specification under renumbering.
+    [adjb g i j]: i and j are adjacent in the undirected graph of the pattern g. *)
+
+(** Specification: the number of k-subsets of the nodes that are pairwise adjacent does not depend on the
+    numbering (any k), nor does the number of triples a < b < c that are pairwise adjacent. *)
+Theorem cliques_spec_invariant (n : nat) (p : list nat) (Hp : Permutation p (seq 0 n))
+        (g : graph) (HL : length g = n) (Hwf : wf_graph g) (k : nat) :
+  Topology.cliques_spec (Topology.adjb (perm_graph p g)) n k = Topology.cliques_spec (Topology.adjb g) n k.
+Proof. exact (EquivarianceProofs.EqT.cliques_spec_invariant n p Hp g HL Hwf k). Qed.
+Print Assumptions cliques_spec_invariant.
+
+Theorem triangles_spec_invariant (n : nat) (p : list nat) (Hp : Permutation p (seq 0 n))
+        (g : graph) (HL : length g = n) (Hwf : wf_graph g) :
+  Topology.triangles_spec (Topology.adjb (perm_graph p g)) n = Topology.triangles_spec (Topology.adjb g) n.
+Proof. exact (EquivarianceProofs.EqT.triangles_spec_invariant n p Hp g HL Hwf). Qed.
+Print Assumptions triangles_spec_invariant.
+
+(** Code: count_triangles (directed2undirected, get_dag, two-pointer merge loops) returns the same count on
+    the renumbered pattern - any pattern with column indices in range: directed, self-loops, duplicates. *)
+Theorem count_triangles_invariant (n : nat) (p : list nat) (Hp : Permutation p (seq 0 n))
+        (g : graph) (HL : length g = n) (Hwf : wf_graph g) :
+  Topology.count_triangles (perm_graph p g) = Topology.count_triangles g.
+Proof. exact (EquivarianceProofs.EqT.count_triangles_invariant n p Hp g HL Hwf). Qed.
+Print Assumptions count_triangles_invariant.
+
+(** ... hence the same clustering coefficient (same rational, or undefined on both sides). *)
+Theorem clustering_coefficient_invariant (n : nat) (p : list nat) (Hp : Permutation p (seq 0 n))
+        (g : graph) (HL : length g = n) (Hwf : wf_graph g) :
+  Topology.clustering_coefficient (perm_graph p g) = Topology.clustering_coefficient g.
+Proof. exact (EquivarianceProofs.EqT.clustering_coefficient_invariant n p Hp g HL Hwf). Qed.
+Print Assumptions clustering_coefficient_invariant.
+
+(** Code: count_cliques as coded (argsort of the core values -> get_dag -> ListingBox kernel) on an undirected
+    graph (symmetric pattern, duplicate-free rows), every clique size k >= 2, and ANY admissible answers of
+    np.argsort on the two sides (the core values of the two graphs are themselves permuted, see below, so the
+    two argsort answers need not correspond): same count. *)
+Theorem count_cliques_invariant (n : nat) (p : list nat) (Hp : Permutation p (seq 0 n))
+        (g : graph) (HL : length g = n) (Hwf : wf_graph g) (k : nat) (argsort argsort' : list nat) :
+  (forall u, NoDup (row g u)) -> (forall u v, In v (row g u) -> In u (row g v)) ->
+  NoDup argsort -> length argsort = n -> NoDup argsort' -> length argsort' = n -> 2 <= k ->
+  Topology.count_cliques (perm_graph p g) k argsort' = Topology.count_cliques g k argsort.
+Proof. exact (EquivarianceProofs.EqT.count_cliques_invariant n p Hp g HL Hwf k argsort argsort'). Qed.
+Print Assumptions count_cliques_invariant.
+
+(** Specification: [core_number g v k] (v lies in a set whose members all have >= k neighbours inside the set,
+    and in no such set for a larger k) is carried by the renumbering. *)
+Theorem core_number_equivariant (n : nat) (p : list nat) (Hp : Permutation p (seq 0 n))
+        (g : graph) (HL : length g = n) (Hwf : wf_graph g) (v k : nat) :
+  v < n ->
+  (Topology.core_number (perm_graph p g) (nthn p v) k <-> Topology.core_number g v k).
+Proof. exact (EquivarianceProofs.EqT.core_number_equivariant n p Hp g HL Hwf v k). Qed.
+Print Assumptions core_number_equivariant.
+
+(** Code: compute_core as coded (MinHeap arrays, stale positions and all): the core values of the renumbered
+    graph are the renumbered core values - although the heap pops the nodes in another order. *)
+Theorem core_equivariant (n : nat) (p : list nat) (Hp : Permutation p (seq 0 n))
+        (g : graph) (HL : length g = n) (Hwf : wf_graph g) (labels : list Z) :
+  (forall u, NoDup (row g u)) -> (forall u v, In v (row g u) -> In u (row g v)) ->
+  Topology.compute_core g = Some labels ->
+  Topology.compute_core (perm_graph p g) = Some (perm_vecz p labels).
+Proof. exact (EquivarianceProofs.EqT.core_equivariant n p Hp g HL Hwf labels). Qed.
+Print Assumptions core_equivariant.
+
+(** Non-vacuity: the triangle 0-1-2 with the tail 2-3-4, renumbered by p = [2; 0; 1; 4; 3]; the hypotheses
+    hold, the models compute, and the two heaps do pop in different orders. *)
+Example c02_nonvacuous_topology :
+  let p := [2; 0; 1; 4; 3] in
+  let g := [[1; 2]; [0; 2]; [0; 1; 3]; [2; 4]; [3]] in
+  Permutation p (seq 0 5) /\ wf_graph g /\ (forall u, NoDup (row g u)) /\
+  (forall u v, In v (row g u) -> In u (row g v)) /\
+  perm_graph p g = [[2; 1]; [2; 0; 4]; [0; 1]; [4]; [1; 3]] /\
+  Topology.count_triangles g = 1 /\ Topology.count_triangles (perm_graph p g) = 1 /\
+  Topology.compute_core g = Some [2; 2; 2; 1; 1]%Z /\
+  Topology.compute_core (perm_graph p g) = Some [2; 2; 2; 1; 1]%Z /\
+  perm_vecz p [2; 2; 2; 1; 1]%Z = [2; 2; 2; 1; 1]%Z /\
+  Topology.compute_core [[1]; [0; 2; 3]; [1; 3]; [1; 2]] = Some [1; 2; 2; 2]%Z /\
+  Topology.compute_core (perm_graph [3; 0; 2; 1] [[1]; [0; 2; 3]; [1; 3]; [1; 2]]) = Some [2; 2; 2; 1]%Z /\
+  perm_vecz [3; 0; 2; 1] [1; 2; 2; 2]%Z = [2; 2; 2; 1]%Z /\
+  Topology.count_cliques g 3 [4; 3; 0; 1; 2] = Ok 1 /\
+  Topology.count_cliques (perm_graph p g) 3 [0; 1; 2; 3; 4] = Ok 1.
+Proof.
+  cbv zeta. split; [|split; [|split; [|split]]].
+  - apply (Permutation_cons_app [0; 1] [3; 4]). simpl. do 2 apply perm_skip. apply perm_swap.
+  - intros u v H. do 5 (destruct u as [|u]; [simpl in H; simpl; intuition lia|]).
+    destruct u; simpl in H; contradiction.
+  - intros u. do 5 (destruct u as [|u]; [unfold row; simpl; repeat constructor; simpl; intuition discriminate|]).
+    destruct u; unfold row; simpl; constructor.
+  - intros u v H. do 5 (destruct u as [|u]; [simpl in H; intuition (subst; simpl; tauto)|]).
+    destruct u; simpl in H; contradiction.
+  - repeat split; vm_compute; reflexivity.
+Qed.
+
+Set Warnings "-notation-overridden".
+
+(** * Ranking algorithms: PageRank, Katz, closeness, betweenness.
+
+    Vocabulary (Model/PageRank.v, Model/Centrality.v, qualified because the module is not imported):
+    a weighted digraph [g : PageRank.wgraph] is a list of rows of (column, weight);
+    [PageRank.wf_graph g = true]: every stored column index is < length g;
+    [PageRankProofs.good_graph g]: that, and weights >= 0;  [PageRank.P g]: row-normalised transition
+    matrix; [PageRank.V l]: a list read as a vector; [PageRank.bsum n f] = f 0 + ... + f (n-1);
+    [perm_wrows p g] = P A P^T; [perm_vecq p x]: the vector w with w[p[i]] = x[i];
+    [fun k => x (index_of k p)]: the same renumbering on vectors given as functions. *)
+
+(* ---------------------------------------------------------------------------------------------- *)
+(** ** 10. PageRank: the specification *)
+
+(** A finite sum may be reindexed by an admissible renumbering. *)
+Theorem bsum_reindex (n : nat) (p : list nat) (Hp : Permutation p (seq 0 n)) (f : nat -> Q) :
+  (PageRank.bsum n f == PageRank.bsum n (fun i => f (nthn p i)))%Q.
+Proof. exact (EquivarianceProofs.EqA.bsum_reindex n p Hp f). Qed.
+Print Assumptions bsum_reindex.
+
+(** The transition matrix of the renumbered graph is the renumbered transition matrix (Leibniz: the
+    same stored weights are added in the same order), and sinks stay sinks. *)
+Theorem pagerank_transition_perm (n : nat) (p : list nat) (Hp : Permutation p (seq 0 n))
+        (g : PageRank.wgraph) (i j : nat) :
+  length g = n -> PageRank.wf_graph g = true -> i < n -> j < n ->
+  PageRank.P (perm_wrows p g) (nthn p i) (nthn p j) = PageRank.P g i j.
+Proof. exact (EquivarianceProofs.EqA.P_perm n p Hp g i j). Qed.
+Print Assumptions pagerank_transition_perm.
+
+Theorem pagerank_has_out_perm (n : nat) (p : list nat) (Hp : Permutation p (seq 0 n))
+        (g : PageRank.wgraph) (i : nat) :
+  i < n -> PageRank.has_out (perm_wrows p g) (nthn p i) = PageRank.has_out g i.
+Proof. exact (EquivarianceProofs.EqA.has_out_perm n p Hp g i). Qed.
+Print Assumptions pagerank_has_out_perm.
+
+(** Row normalisation commutes with the renumbering (no hypothesis at all, p any list). *)
+Theorem pagerank_normalize_perm (p : list nat) (g : PageRank.wgraph) :
+  PageRank.normalize (perm_wrows p g) = perm_wrows p (PageRank.normalize g).
+Proof. exact (EquivarianceProofs.EqA.normalize_perm p g). Qed.
+Print Assumptions pagerank_normalize_perm.
+
+(** The hypotheses of the C04 theorems are preserved. *)
+Theorem pagerank_good_graph_perm (n : nat) (p : list nat) (Hp : Permutation p (seq 0 n)) (g : PageRank.wgraph) :
+  length g = n -> PageRankProofs.good_graph g -> PageRankProofs.good_graph (perm_wrows p g).
+Proof. exact (EquivarianceProofs.EqA.good_graph_perm n p Hp g). Qed.
+Print Assumptions pagerank_good_graph_perm.
+
+(** The PageRank equation x = alpha P^T x + (1 - alpha) y and the PageRank vector x / sum x are
+    transported by the renumbering. *)
+Theorem pagerank_solution_perm (n : nat) (p : list nat) (Hp : Permutation p (seq 0 n))
+        (g : PageRank.wgraph) (alpha : Q) (y x : PageRank.vec) :
+  length g = n -> PageRank.wf_graph g = true ->
+  PageRank.is_solution n (PageRank.P g) alpha y x ->
+  PageRank.is_solution n (PageRank.P (perm_wrows p g)) alpha (fun k => y (index_of k p)) (fun k => x (index_of k p)).
+Proof. exact (EquivarianceProofs.EqA.is_solution_perm n p Hp g alpha y x). Qed.
+Print Assumptions pagerank_solution_perm.
+
+Theorem pagerank_spec_perm (n : nat) (p : list nat) (Hp : Permutation p (seq 0 n))
+        (g : PageRank.wgraph) (alpha : Q) (y x : PageRank.vec) :
+  length g = n -> PageRank.wf_graph g = true ->
+  PageRank.is_pagerank n (PageRank.P g) alpha y x ->
+  PageRank.is_pagerank n (PageRank.P (perm_wrows p g)) alpha (fun k => y (index_of k p)) (fun k => x (index_of k p)).
+Proof. exact (EquivarianceProofs.EqA.is_pagerank_perm n p Hp g alpha y x). Qed.
+Print Assumptions pagerank_spec_perm.
+
+Theorem pagerank_spec_perm_list (n : nat) (p : list nat) (Hp : Permutation p (seq 0 n))
+        (g : PageRank.wgraph) (alpha : Q) (y x : list Q) :
+  length g = n -> PageRank.wf_graph g = true ->
+  PageRank.is_pagerank n (PageRank.P g) alpha (PageRank.V y) (PageRank.V x) ->
+  PageRank.is_pagerank n (PageRank.P (perm_wrows p g)) alpha
+                       (PageRank.V (perm_vecq p y)) (PageRank.V (perm_vecq p x)).
+Proof. exact (EquivarianceProofs.EqA.is_pagerank_perm_list n p Hp g alpha y x). Qed.
+Print Assumptions pagerank_spec_perm_list.
+
+(** Equivariance of PageRank: for 0 <= alpha < 1 the PageRank vector of the renumbered graph with the
+    renumbered restart distribution is the renumbered PageRank vector (uniqueness, C04, + transport). *)
+Theorem pagerank_equivariant (n : nat) (p : list nat) (Hp : Permutation p (seq 0 n))
+        (g : PageRank.wgraph) (alpha : Q) (y y' x x' : PageRank.vec) :
+  length g = n -> PageRankProofs.good_graph g -> (0 <= alpha < 1)%Q ->
+  (forall j, j < n -> (y' (nthn p j) == y j)%Q) ->
+  PageRank.is_pagerank n (PageRank.P g) alpha y x ->
+  PageRank.is_pagerank n (PageRank.P (perm_wrows p g)) alpha y' x' ->
+  forall j, j < n -> (x' (nthn p j) == x j)%Q.
+Proof. exact (EquivarianceProofs.EqA.pagerank_equivariant n p Hp g alpha y y' x x'). Qed.
+Print Assumptions pagerank_equivariant.
+
+Theorem pagerank_solution_equivariant (n : nat) (p : list nat) (Hp : Permutation p (seq 0 n))
+        (g : PageRank.wgraph) (alpha : Q) (y y' x x' : PageRank.vec) :
+  length g = n -> PageRankProofs.good_graph g -> (0 <= alpha < 1)%Q ->
+  (forall j, j < n -> (y' (nthn p j) == y j)%Q) ->
+  PageRank.is_solution n (PageRank.P g) alpha y x ->
+  PageRank.is_solution n (PageRank.P (perm_wrows p g)) alpha y' x' ->
+  forall j, j < n -> (x' (nthn p j) == x j)%Q.
+Proof. exact (EquivarianceProofs.EqA.solution_equivariant n p Hp g alpha y y' x x'). Qed.
+Print Assumptions pagerank_solution_equivariant.
+
+(* ---------------------------------------------------------------------------------------------- *)
+(** ** 11. PageRank: the coded solvers (Leibniz equality: the models store [Qred] normal forms) *)
+
+(** RandomSurferOperator._matvec commutes with the renumbering. *)
+Theorem surfer_matvec_perm (n : nat) (p : list nat) (Hp : Permutation p (seq 0 n))
+        (g : PageRank.wgraph) (alpha : Q) (y x : list Q) :
+  length g = n -> PageRank.wf_graph g = true ->
+  PageRank.surfer_matvec (perm_wrows p g) alpha (perm_vecq p y) (perm_vecq p x) =
+  perm_vecq p (PageRank.surfer_matvec g alpha y x).
+Proof. exact (EquivarianceProofs.EqA.surfer_matvec_perm n p Hp g alpha y x). Qed.
+Print Assumptions surfer_matvec_perm.
+
+(** One coded power-iteration step (operator, division by the sum) ... *)
+Theorem piteration_step_perm (n : nat) (p : list nat) (Hp : Permutation p (seq 0 n))
+        (g : PageRank.wgraph) (alpha : Q) (y x : list Q) :
+  length g = n -> PageRank.wf_graph g = true -> length x = n ->
+  PageRank.piteration_step (PageRank.surfer_matvec (perm_wrows p g) alpha (perm_vecq p y)) (perm_vecq p x) =
+  perm_vecq p (PageRank.piteration_step (PageRank.surfer_matvec g alpha y) x).
+Proof. exact (EquivarianceProofs.EqA.piteration_step_surfer_perm n p Hp g alpha y x). Qed.
+Print Assumptions piteration_step_perm.
+
+(** ... and the whole solver, for every n_iter and every tolerance (the early-exit test compares an L1
+    norm, which is a permutation-invariant sum: both runs leave the loop at the same iteration). *)
+Theorem piteration_equivariant (n : nat) (p : list nat) (Hp : Permutation p (seq 0 n))
+        (g : PageRank.wgraph) (alpha : Q) (y : list Q) (n_iter : nat) (tol : Q) :
+  length g = n -> PageRank.wf_graph g = true -> length y = n ->
+  PageRank.piteration (perm_wrows p g) alpha (perm_vecq p y) n_iter tol =
+  perm_vecq p (PageRank.piteration g alpha y n_iter tol).
+Proof. exact (EquivarianceProofs.EqA.piteration_equivariant n p Hp g alpha y n_iter tol). Qed.
+Print Assumptions piteration_equivariant.
+
+(** The RH solver (Polynome._matvec, Ruffini-Horner). *)
+Theorem rh_equivariant (n : nat) (p : list nat) (Hp : Permutation p (seq 0 n))
+        (g : PageRank.wgraph) (alpha : Q) (y : list Q) (n_iter : nat) :
+  length g = n -> PageRank.wf_graph g = true -> length y = n ->
+  PageRank.rh (perm_wrows p g) alpha (perm_vecq p y) n_iter = perm_vecq p (PageRank.rh g alpha y n_iter).
+Proof. exact (EquivarianceProofs.EqA.rh_equivariant n p Hp g alpha y n_iter). Qed.
+Print Assumptions rh_equivariant.
+
+(** get_pagerank (dispatch + final normalisation) for the two solvers that are plain matrix iterations.
+    Not claimed: bicgstab / lanczos (oracles), diteration and push (sequential sweeps, see below). *)
+Theorem get_pagerank_equivariant (n : nat) (p : list nat) (Hp : Permutation p (seq 0 n))
+        (g : PageRank.wgraph) (y : list Q) (alpha : Q) (n_iter : nat) (tol : Q) (s : PageRank.solver)
+        (oracle : list Q) (order : list nat) (r : list Q) :
+  length g = n -> PageRank.wf_graph g = true -> length y = n ->
+  s = PageRank.Piteration \/ s = PageRank.RH ->
+  PageRank.get_pagerank g y alpha n_iter tol s oracle order = Some r ->
+  PageRank.get_pagerank (perm_wrows p g) (perm_vecq p y) alpha n_iter tol s oracle order = Some (perm_vecq p r).
+Proof. exact (EquivarianceProofs.EqA.get_pagerank_equivariant n p Hp g y alpha n_iter tol s oracle order r). Qed.
+Print Assumptions get_pagerank_equivariant.
+
+(** Through exactness (C04 piteration_fixed_point): two probability vectors fixed by one coded
+    power-iteration step, on the graph and on the renumbered graph, correspond. *)
+Theorem piteration_fixed_points_correspond (n : nat) (p : list nat) (Hp : Permutation p (seq 0 n))
+        (g : PageRank.wgraph) (alpha : Q) (y x x' : list Q) :
+  length g = n -> PageRankProofs.good_graph g -> (0 <= alpha < 1)%Q ->
+  (PageRank.vsum n (PageRank.V y) == 1)%Q -> (PageRank.vsum n (PageRank.V x) == 1)%Q ->
+  (PageRank.vsum n (PageRank.V x') == 1)%Q ->
+  (forall j, j < n ->
+     (PageRank.V (PageRank.piteration_step (PageRank.surfer_matvec g alpha y) x) j == PageRank.V x j)%Q) ->
+  (forall j, j < n ->
+     (PageRank.V (PageRank.piteration_step (PageRank.surfer_matvec (perm_wrows p g) alpha (perm_vecq p y)) x') j
+      == PageRank.V x' j)%Q) ->
+  forall j, j < n -> (PageRank.V x' (nthn p j) == PageRank.V x j)%Q.
+Proof. exact (EquivarianceProofs.EqA.piteration_fixed_points_correspond n p Hp g alpha y x x'). Qed.
+Print Assumptions piteration_fixed_points_correspond.
+
+(** FINDING (expected): D-iteration sweeps the nodes in index order, so a FINITE number of sweeps is not
+    equivariant - only its limit, the PageRank vector, is.  Path 0 -> 1 -> 2, restart at node 0, alpha = 1/2,
+    one sweep: in this numbering the fluid runs down the whole path within the sweep, after reversing the
+    numbering it advances one node per sweep. *)
+Theorem diteration_not_equivariant_exactly :
+  exists (p : list nat) (g : PageRank.wgraph) (alpha : Q) (y : list Q),
+    Permutation p (seq 0 3) /\ length g = 3 /\ PageRankProofs.good_graph g /\ (0 <= alpha < 1)%Q /\
+    PageRank.diteration g alpha y 1 0 = [1 # 2; 1 # 4; 1 # 8]%Q /\
+    perm_vecq p (PageRank.diteration g alpha y 1 0) = [1 # 8; 1 # 4; 1 # 2]%Q /\
+    PageRank.diteration (perm_wrows p g) alpha (perm_vecq p y) 1 0 = [0; 0; 1 # 2]%Q.
+Proof. exact EquivarianceProofs.EqA.diteration_not_equivariant_exactly. Qed.
+Print Assumptions diteration_not_equivariant_exactly.
+
+(** Non-vacuity: the graph of c04_nonvacuous (with a sink), p = [2; 0; 1]. *)
+Example pagerank_equivariance_nonvacuous :
+  let p := [2; 0; 1] in
+  let g : PageRank.wgraph := [[(1, 2%Q); (2, 1%Q)]; [(2, 3%Q)]; []] in
+  let y := [1 # 2; 1 # 4; 1 # 4]%Q in
+  let alpha := (1 # 2)%Q in
+  let xs := [1 # 4; 5 # 24; 13 # 48]%Q in
+  Permutation p (seq 0 3) /\ length g = 3 /\ PageRankProofs.good_graph g /\ (0 <= alpha < 1)%Q /\
+  perm_wrows p g = [[(1, 3%Q)]; []; [(0, 2%Q); (1, 1%Q)]] /\
+  perm_vecq p y = [1 # 4; 1 # 4; 1 # 2]%Q /\
+  PageRank.solution_check g alpha y xs = true /\
+  PageRank.solution_check (perm_wrows p g) alpha (perm_vecq p y) (perm_vecq p xs) = true /\
+  PageRank.piteration g alpha y 3 0 = [1063 # 3072; 5285 # 18432; 6769 # 18432]%Q /\
+  PageRank.piteration (perm_wrows p g) alpha (perm_vecq p y) 3 0 = [5285 # 18432; 6769 # 18432; 1063 # 3072]%Q /\
+  perm_vecq p (PageRank.piteration g alpha y 3 0) = [5285 # 18432; 6769 # 18432; 1063 # 3072]%Q /\
+  PageRank.rh (perm_wrows p g) alpha (perm_vecq p y) 2 = [5 # 12; 13 # 24; 1 # 2]%Q /\
+  perm_vecq p (PageRank.rh g alpha y 2) = [5 # 12; 13 # 24; 1 # 2]%Q.
+Proof.
+  cbv zeta. split; [apply EquivarianceProofs.EqA.is_perm_sound; reflexivity|].
+  repeat split; try (vm_compute; reflexivity); try (vm_compute; congruence).
+Qed.
+
+(* ---------------------------------------------------------------------------------------------- *)
+(** ** 12. Katz *)
+
+(** The stored pattern of the renumbered graph (no hypothesis). *)
+Theorem centrality_pattern_perm (p : list nat) (g : PageRank.wgraph) :
+  Centrality.pattern (perm_wrows p g) = perm_graph p (Centrality.pattern g).
+Proof. exact (EquivarianceProofs.EqA.pattern_perm p g). Qed.
+Print Assumptions centrality_pattern_perm.
+
+(** Specification: the number of walks of k edges ending in a node, and the Katz series. *)
+Theorem walks_to_perm (n : nat) (p : list nat) (Hp : Permutation p (seq 0 n)) (q : graph) (k j : nat) :
+  length q = n -> wf_graph q -> j < n ->
+  (Centrality.walks_to (perm_graph p q) k (nthn p j) == Centrality.walks_to q k j)%Q.
+Proof. exact (EquivarianceProofs.EqA.walks_to_perm n p Hp q k j). Qed.
+Print Assumptions walks_to_perm.
+
+Theorem katz_spec_perm (n : nat) (p : list nat) (Hp : Permutation p (seq 0 n)) (q : graph) (alpha : Q) (K j : nat) :
+  length q = n -> wf_graph q -> j < n ->
+  (Centrality.katz_spec (perm_graph p q) alpha K (nthn p j) == Centrality.katz_spec q alpha K j)%Q.
+Proof. exact (EquivarianceProofs.EqA.katz_spec_perm n p Hp q alpha K j). Qed.
+Print Assumptions katz_spec_perm.
+
+(** Katz.fit as coded (Horner loop on the 0/1 pattern), Leibniz equality. *)
+Theorem katz_equivariant (n : nat) (p : list nat) (Hp : Permutation p (seq 0 n))
+        (g : PageRank.wgraph) (alpha : Q) (K : nat) :
+  length g = n -> PageRank.wf_graph g = true ->
+  Centrality.katz (perm_wrows p g) alpha K = perm_vecq p (Centrality.katz g alpha K).
+Proof. exact (EquivarianceProofs.EqA.katz_equivariant n p Hp g alpha K). Qed.
+Print Assumptions katz_equivariant.
+
+(** The same as a corollary of exactness (C04 katz_def on both sides) and of katz_spec_perm. *)
+Theorem katz_equivariant_via_spec (n : nat) (p : list nat) (Hp : Permutation p (seq 0 n))
+        (g : PageRank.wgraph) (alpha : Q) (K j : nat) :
+  length g = n -> PageRank.wf_graph g = true -> j < n ->
+  (PageRank.V (Centrality.katz (perm_wrows p g) alpha K) (nthn p j) == PageRank.V (Centrality.katz g alpha K) j)%Q.
+Proof. exact (EquivarianceProofs.EqA.katz_equivariant_via_spec n p Hp g alpha K j). Qed.
+Print Assumptions katz_equivariant_via_spec.
+
+(* ---------------------------------------------------------------------------------------------- *)
+(** ** 13. Closeness *)
+
+(** Closeness.fit, method = 'exact': one BFS per node (bfs_equivariant), then statistics of the distance
+    row that do not depend on its order. *)
+Theorem closeness_equivariant (n : nat) (p : list nat) (Hp : Permutation p (seq 0 n)) (g : graph) :
+  length g = n -> wf_graph g ->
+  Centrality.closeness_exact (perm_graph p g) = perm_vecq p (Centrality.closeness_exact g).
+Proof. exact (EquivarianceProofs.EqA.closeness_equivariant n p Hp g). Qed.
+Print Assumptions closeness_equivariant.
+
+(** method = 'approximate': the random sample is an oracle; it is renumbered with the graph. *)
+Theorem closeness_approx_equivariant (n : nat) (p : list nat) (Hp : Permutation p (seq 0 n))
+        (g : graph) (sources : list nat) :
+  length g = n -> wf_graph g -> (forall s, In s sources -> s < n) ->
+  Centrality.closeness_approx (perm_graph p g) (map (nthn p) sources) =
+  perm_vecq p (Centrality.closeness_approx g sources).
+Proof. exact (EquivarianceProofs.EqA.closeness_approx_equivariant n p Hp g sources). Qed.
+Print Assumptions closeness_approx_equivariant.
+
+(* ---------------------------------------------------------------------------------------------- *)
+(** ** 14. Betweenness *)
+
+(** Specification: walk counts, pair dependencies sigma_st(v) / sigma_st, the sum over ordered pairs,
+    the symmetry test (weights included), and the textbook betweenness vector. *)
+Theorem nwalks_perm (n : nat) (p : list nat) (Hp : Permutation p (seq 0 n)) (q : graph) (k s t : nat) :
+  length q = n -> wf_graph q -> s < n -> t < n ->
+  (PageRank.V (Centrality.nwalks (perm_graph p q) k (nthn p s)) (nthn p t) ==
+   PageRank.V (Centrality.nwalks q k s) t)%Q.
+Proof. exact (EquivarianceProofs.EqA.nwalks_perm n p Hp q k s t). Qed.
+Print Assumptions nwalks_perm.
+
+Theorem pair_dependency_perm (n : nat) (p : list nat) (Hp : Permutation p (seq 0 n)) (q : graph) (s t v : nat) :
+  length q = n -> wf_graph q -> s < n -> t < n -> v < n ->
+  (Centrality.pair_dependency (perm_graph p q) (nthn p s) (nthn p t) (nthn p v) ==
+   Centrality.pair_dependency q s t v)%Q.
+Proof. exact (EquivarianceProofs.EqA.pair_dependency_perm n p Hp q s t v). Qed.
+Print Assumptions pair_dependency_perm.
+
+Theorem betweenness_ordered_perm (n : nat) (p : list nat) (Hp : Permutation p (seq 0 n)) (q : graph) (v : nat) :
+  length q = n -> wf_graph q -> v < n ->
+  Centrality.betweenness_ordered (perm_graph p q) (nthn p v) = Centrality.betweenness_ordered q v.
+Proof. exact (EquivarianceProofs.EqA.betweenness_ordered_perm n p Hp q v). Qed.
+Print Assumptions betweenness_ordered_perm.
+
+Theorem is_symmetric_perm (n : nat) (p : list nat) (Hp : Permutation p (seq 0 n)) (g : PageRank.wgraph) :
+  length g = n -> PageRank.wf_graph g = true ->
+  Centrality.is_symmetric (perm_wrows p g) = Centrality.is_symmetric g.
+Proof. exact (EquivarianceProofs.EqA.is_symmetric_perm n p Hp g). Qed.
+Print Assumptions is_symmetric_perm.
+
+Theorem betweenness_spec_perm (n : nat) (p : list nat) (Hp : Permutation p (seq 0 n)) (g : PageRank.wgraph) :
+  length g = n -> PageRank.wf_graph g = true ->
+  Centrality.betweenness_spec (perm_wrows p g) = perm_vecq p (Centrality.betweenness_spec g).
+Proof. exact (EquivarianceProofs.EqA.betweenness_spec_perm n p Hp g). Qed.
+Print Assumptions betweenness_spec_perm.
+
+(** The hypotheses of C04 brandes_exact (column indices < n, no row stores a column twice) are
+    preserved by the renumbering. *)
+Theorem brandes_hypotheses_perm (n : nat) (p : list nat) (Hp : Permutation p (seq 0 n)) (g : PageRank.wgraph) :
+  length g = n ->
+  (forall u v, In v (row (Centrality.pattern g) u) -> v < length g) ->
+  (forall u, NoDup (row (Centrality.pattern g) u)) ->
+  (forall u v, In v (row (Centrality.pattern (perm_wrows p g)) u) -> v < length (perm_wrows p g)) /\
+  (forall u, NoDup (row (Centrality.pattern (perm_wrows p g)) u)).
+Proof. exact (EquivarianceProofs.EqA.brandes_hyps_perm n p Hp g). Qed.
+Print Assumptions brandes_hypotheses_perm.
+
+(** Betweenness.fit as coded (Brandes, one BFS + back-propagation per source in index order):
+    betweenness_equivariant := brandes_exact o betweenness_spec_perm. *)
+Theorem betweenness_equivariant (n : nat) (p : list nat) (Hp : Permutation p (seq 0 n))
+        (g : PageRank.wgraph) (v : nat) :
+  length g = n ->
+  (forall u w, In w (row (Centrality.pattern g) u) -> w < length g) ->
+  (forall u, NoDup (row (Centrality.pattern g) u)) ->
+  v < n ->
+  (PageRank.V (Centrality.betweenness (perm_wrows p g)) (nthn p v) == PageRank.V (Centrality.betweenness g) v)%Q.
+Proof. exact (EquivarianceProofs.EqA.betweenness_equivariant n p Hp g v). Qed.
+Print Assumptions betweenness_equivariant.
+
+(** ... with Leibniz equality (every stored score is a [Qred] normal form), and with the hypotheses
+    decided by the executable [rows_ok]. *)
+Theorem betweenness_equivariant_eq (n : nat) (p : list nat) (Hp : Permutation p (seq 0 n)) (g : PageRank.wgraph) :
+  length g = n ->
+  (forall u w, In w (row (Centrality.pattern g) u) -> w < length g) ->
+  (forall u, NoDup (row (Centrality.pattern g) u)) ->
+  Centrality.betweenness (perm_wrows p g) = perm_vecq p (Centrality.betweenness g).
+Proof. exact (EquivarianceProofs.EqA.betweenness_equivariant_eq n p Hp g). Qed.
+Print Assumptions betweenness_equivariant_eq.
+
+Theorem betweenness_equivariant_rows_ok (n : nat) (p : list nat) (Hp : Permutation p (seq 0 n)) (g : PageRank.wgraph) :
+  length g = n -> BrandesProofs.rows_ok (Centrality.pattern g) = true ->
+  Centrality.betweenness (perm_wrows p g) = perm_vecq p (Centrality.betweenness g).
+Proof. exact (EquivarianceProofs.EqA.betweenness_equivariant_rows_ok n p Hp g). Qed.
+Print Assumptions betweenness_equivariant_rows_ok.
+
+(** Non-vacuity for Katz, closeness, betweenness: the weighted graph above; a small digraph; the directed
+    diamond with a tail of brandes_nonvacuous renumbered by [3; 0; 4; 1; 2]; the undirected path
+    0 - 1 - 2 - 3 (symmetric: halved) renumbered by [2; 0; 3; 1]. *)
+Example centrality_equivariance_nonvacuous :
+  let p := [2; 0; 1] in
+  let g : PageRank.wgraph := [[(1, 2%Q); (2, 1%Q)]; [(2, 3%Q)]; []] in
+  let c : graph := [[1]; [0; 2]; [1; 0]] in
+  let p5 := [3; 0; 4; 1; 2] in
+  let h := Centrality.graph_of_arcs 5 [(0,1);(0,2);(1,3);(2,3);(3,4)] in
+  let p4 := [2; 0; 3; 1] in
+  let u := Centrality.graph_of_arcs 4 [(0,1);(1,0);(1,2);(2,1);(2,3);(3,2)] in
+  Permutation p (seq 0 3) /\ Permutation p5 (seq 0 5) /\ Permutation p4 (seq 0 4) /\
+  PageRank.wf_graph g = true /\
+  Centrality.katz g (1 # 2) 3 = [0; 1 # 2; 5 # 4]%Q /\
+  Centrality.katz (perm_wrows p g) (1 # 2) 3 = [1 # 2; 5 # 4; 0]%Q /\
+  perm_vecq p (Centrality.katz g (1 # 2) 3) = [1 # 2; 5 # 4; 0]%Q /\
+  wf_graph c /\ perm_graph p c = [[2; 1]; [0; 2]; [0]] /\
+  Centrality.closeness_exact c = [2 # 3; 1; 1]%Q /\
+  Centrality.closeness_exact (perm_graph p c) = [1; 1; 2 # 3]%Q /\
+  perm_vecq p (Centrality.closeness_exact c) = [1; 1; 2 # 3]%Q /\
+  Centrality.closeness_approx (perm_graph p c) (map (nthn p) [1; 2]) = [4 # 3; 4 # 3; 2 # 3]%Q /\
+  perm_vecq p (Centrality.closeness_approx c [1; 2]) = [4 # 3; 4 # 3; 2 # 3]%Q /\
+  BrandesProofs.rows_ok (Centrality.pattern h) = true /\ Centrality.is_symmetric h = false /\
+  perm_wrows p5 h = [[(1, 1%Q)]; [(2, 1%Q)]; []; [(0, 1%Q); (4, 1%Q)]; [(1, 1%Q)]] /\
+  Centrality.betweenness h = [0; 1; 1; 3; 0]%Q /\
+  Centrality.betweenness (perm_wrows p5 h) = [1; 3; 0; 0; 1]%Q /\
+  perm_vecq p5 (Centrality.betweenness h) = [1; 3; 0; 0; 1]%Q /\
+  BrandesProofs.rows_ok (Centrality.pattern u) = true /\ Centrality.is_symmetric u = true /\
+  Centrality.betweenness u = [0; 2; 2; 0]%Q /\
+  Centrality.betweenness (perm_wrows p4 u) = [2; 0; 0; 2]%Q /\
+  perm_vecq p4 (Centrality.betweenness u) = [2; 0; 0; 2]%Q.
+Proof.
+  cbv zeta.
+  split; [apply EquivarianceProofs.EqA.is_perm_sound; reflexivity|].
+  split; [apply EquivarianceProofs.EqA.is_perm_sound; reflexivity|].
+  split; [apply EquivarianceProofs.EqA.is_perm_sound; reflexivity|].
+  split; [reflexivity|]. split; [vm_compute; reflexivity|]. split; [vm_compute; reflexivity|].
+  split; [vm_compute; reflexivity|].
+  split.
+  { intros a b H. destruct a as [|[|[|a]]]; cbn in H; cbn; try lia; try contradiction.
+    destruct a; contradiction. }
+  repeat split; vm_compute; reflexivity.
+Qed.
+
+(** * 15. Metrics that are INVARIANT under a renumbering of the nodes
+
+    ** 15.1 Modularity (Model/Modularity.v).
+    The graph is a square weighted matrix g (rows of (column, weight) pairs, duplicates summed) with
+    [length g = n] and column indices below n ([Modularity.wf_wgraph]); renumbering by p gives
+    [perm_wrows p g] = P A P^T and the labelling [perm_vec 0%nat p labels] (node p[i] keeps the label of i). *)
+
+(** A finite sum over 0..n-1 can be read in the order p[0], p[1], ... *)
+Theorem modularity_qsum_reindex (n : nat) (p : list nat) (Hp : Permutation p (seq 0 n)) (f : nat -> Q) :
+  (Modularity.qsum n f == Modularity.qsum n (fun i => f (nthn p i)))%Q.
+Proof. exact (EquivarianceProofs.EqB_Mod.qsum_reindex n p Hp f). Qed.
+Print Assumptions modularity_qsum_reindex.
+
+(** Entry (p i, p j) of the renumbered matrix is entry (i, j) of the original one; the renumbered
+    matrix is again square and well formed. *)
+Theorem modularity_entry_renumbered (n : nat) (p : list nat) (Hp : Permutation p (seq 0 n))
+        (g : Modularity.wgraph) (i j : nat) :
+  length g = n -> Modularity.wf_wgraph g -> i < n -> j < n ->
+  (Modularity.entry (perm_wrows p g) (nthn p i) (nthn p j) == Modularity.entry g i j)%Q.
+Proof. exact (EquivarianceProofs.EqB_Mod.pw_entry n p Hp g i j). Qed.
+Print Assumptions modularity_entry_renumbered.
+
+Theorem modularity_renumbered_wf (n : nat) (p : list nat) (Hp : Permutation p (seq 0 n))
+        (g : Modularity.wgraph) :
+  length g = n -> Modularity.wf_wgraph g ->
+  length (perm_wrows p g) = n /\ Modularity.wf_wgraph (perm_wrows p g).
+Proof. exact (fun HL Hwf => conj (EquivarianceProofs.EqB_Mod.pw_length n p Hp g) (EquivarianceProofs.EqB_Mod.pw_wf n p Hp g HL Hwf)). Qed.
+Print Assumptions modularity_renumbered_wf.
+
+(** Total weight, out- and in-degrees (as the specification defines them) are renumbered. *)
+Theorem modularity_total_weight_renumbered (n : nat) (p : list nat) (Hp : Permutation p (seq 0 n))
+        (g : Modularity.wgraph) :
+  length g = n -> Modularity.wf_wgraph g ->
+  (Modularity.total_weight (perm_wrows p g) == Modularity.total_weight g)%Q.
+Proof. exact (EquivarianceProofs.EqB_Mod.pw_total_weight n p Hp g). Qed.
+Print Assumptions modularity_total_weight_renumbered.
+
+Theorem modularity_out_deg_renumbered (n : nat) (p : list nat) (Hp : Permutation p (seq 0 n))
+        (g : Modularity.wgraph) (i : nat) :
+  length g = n -> Modularity.wf_wgraph g -> i < n ->
+  (Modularity.spec_out_deg (perm_wrows p g) (nthn p i) == Modularity.spec_out_deg g i)%Q.
+Proof. exact (EquivarianceProofs.EqB_Mod.pw_spec_out_deg n p Hp g i). Qed.
+Print Assumptions modularity_out_deg_renumbered.
+
+Theorem modularity_in_deg_renumbered (n : nat) (p : list nat) (Hp : Permutation p (seq 0 n))
+        (g : Modularity.wgraph) (j : nat) :
+  length g = n -> Modularity.wf_wgraph g -> j < n ->
+  (Modularity.spec_in_deg (perm_wrows p g) (nthn p j) == Modularity.spec_in_deg g j)%Q.
+Proof. exact (EquivarianceProofs.EqB_Mod.pw_spec_in_deg n p Hp g j). Qed.
+Print Assumptions modularity_in_deg_renumbered.
+
+(** Two renumbered nodes share a cluster iff the original nodes do. *)
+Theorem modularity_delta_renumbered (n : nat) (p : list nat) (Hp : Permutation p (seq 0 n))
+        (labels : list nat) (i j : nat) :
+  i < n -> j < n ->
+  Modularity.delta (perm_vec 0%nat p labels) (nthn p i) (nthn p j) = Modularity.delta labels i j.
+Proof. exact (EquivarianceProofs.EqB_Mod.pv_delta n p Hp labels i j). Qed.
+Print Assumptions modularity_delta_renumbered.
+
+(** The textbook modularity (directed / degree form, uniform / Potts form) and the fit term do not
+    depend on the numbering of the nodes. *)
+Theorem spec_modularity_invariant (n : nat) (p : list nat) (Hp : Permutation p (seq 0 n))
+        (g : Modularity.wgraph) (labels : list nat) (gamma : Q) :
+  length g = n -> Modularity.wf_wgraph g ->
+  (Modularity.spec_modularity (perm_wrows p g) (perm_vec 0%nat p labels) gamma
+   == Modularity.spec_modularity g labels gamma)%Q.
+Proof. exact (EquivarianceProofs.EqB_Mod.spec_modularity_invariant n p Hp g labels gamma). Qed.
+Print Assumptions spec_modularity_invariant.
+
+Theorem spec_modularity_uniform_invariant (n : nat) (p : list nat) (Hp : Permutation p (seq 0 n))
+        (g : Modularity.wgraph) (labels : list nat) (gamma : Q) :
+  length g = n -> Modularity.wf_wgraph g ->
+  (Modularity.spec_modularity_uniform (perm_wrows p g) (perm_vec 0%nat p labels) gamma
+   == Modularity.spec_modularity_uniform g labels gamma)%Q.
+Proof. exact (EquivarianceProofs.EqB_Mod.spec_modularity_uniform_invariant n p Hp g labels gamma). Qed.
+Print Assumptions spec_modularity_uniform_invariant.
+
+Theorem spec_fit_invariant (n : nat) (p : list nat) (Hp : Permutation p (seq 0 n))
+        (g : Modularity.wgraph) (labels : list nat) :
+  length g = n -> Modularity.wf_wgraph g ->
+  (Modularity.spec_fit (perm_wrows p g) (perm_vec 0%nat p labels) == Modularity.spec_fit g labels)%Q.
+Proof. exact (EquivarianceProofs.EqB_Mod.spec_fit_invariant n p Hp g labels). Qed.
+Print Assumptions spec_fit_invariant.
+
+(** The CODED get_modularity on a square matrix gives the same answer for the renumbered graph and
+    labelling: the same (modularity, fit, diversity) triple with Leibniz equality (the model stores
+    reduced fractions), or the same error.  Unconditional: no assumption that either call returns. *)
+Theorem get_modularity_invariant (n : nat) (p : list nat) (Hp : Permutation p (seq 0 n))
+        (m : Modularity.wmat) (labels : list nat) (labels_col : option (list nat))
+        (wk : Modularity.weighting) (gamma : Q) :
+  Modularity.w_nrow m = n -> Modularity.w_ncol m = n -> Modularity.wf_wgraph (Modularity.w_rows m) ->
+  length labels = n ->
+  Modularity.get_modularity
+    {| Modularity.w_ncol := n; Modularity.w_rows := perm_wrows p (Modularity.w_rows m) |}
+    (perm_vec 0%nat p labels) labels_col wk gamma
+  = Modularity.get_modularity m labels labels_col wk gamma.
+Proof. exact (EquivarianceProofs.EqB_Mod.get_modularity_invariant n p Hp m labels labels_col wk gamma). Qed.
+Print Assumptions get_modularity_invariant.
+
+(** The conditional reading: whenever both calls return, the triples are equal. *)
+Theorem modularity_invariant (n : nat) (p : list nat) (Hp : Permutation p (seq 0 n))
+        (m : Modularity.wmat) (labels : list nat) (labels_col : option (list nat))
+        (wk : Modularity.weighting) (gamma md ft dv md' ft' dv' : Q) :
+  Modularity.w_nrow m = n -> Modularity.w_ncol m = n -> Modularity.wf_wgraph (Modularity.w_rows m) ->
+  length labels = n ->
+  Modularity.get_modularity m labels labels_col wk gamma = Modularity.MOk (md, ft, dv) ->
+  Modularity.get_modularity
+    {| Modularity.w_ncol := n; Modularity.w_rows := perm_wrows p (Modularity.w_rows m) |}
+    (perm_vec 0%nat p labels) labels_col wk gamma = Modularity.MOk (md', ft', dv') ->
+  md = md' /\ ft = ft' /\ dv = dv'.
+Proof.
+  exact (EquivarianceProofs.EqB_Mod.modularity_invariant n p Hp m labels labels_col wk gamma md ft dv md' ft' dv').
+Qed.
+Print Assumptions modularity_invariant.
+
+(** ... and the renumbered call returns whenever the original one does. *)
+Theorem modularity_invariant_returns (n : nat) (p : list nat) (Hp : Permutation p (seq 0 n))
+        (m : Modularity.wmat) (labels : list nat) (labels_col : option (list nat))
+        (wk : Modularity.weighting) (gamma md ft dv : Q) :
+  Modularity.w_nrow m = n -> Modularity.w_ncol m = n -> Modularity.wf_wgraph (Modularity.w_rows m) ->
+  length labels = n ->
+  Modularity.get_modularity m labels labels_col wk gamma = Modularity.MOk (md, ft, dv) ->
+  Modularity.get_modularity
+    {| Modularity.w_ncol := n; Modularity.w_rows := perm_wrows p (Modularity.w_rows m) |}
+    (perm_vec 0%nat p labels) labels_col wk gamma = Modularity.MOk (md, ft, dv).
+Proof.
+  exact (EquivarianceProofs.EqB_Mod.modularity_invariant_returns n p Hp m labels labels_col wk gamma md ft dv).
+Qed.
+Print Assumptions modularity_invariant_returns.
+
+(** Composition with exactness (C06 modularity_def): what the renumbered call returns is the textbook
+    modularity of the ORIGINAL graph and labelling. *)
+Theorem modularity_renumbered_is_spec (n : nat) (p : list nat) (Hp : Permutation p (seq 0 n))
+        (m : Modularity.wmat) (labels : list nat) (labels_col : option (list nat))
+        (wk : Modularity.weighting) (gamma md ft dv : Q) :
+  Modularity.w_nrow m = n -> Modularity.w_ncol m = n -> Modularity.wf_wgraph (Modularity.w_rows m) ->
+  length labels = n ->
+  Modularity.get_modularity
+    {| Modularity.w_ncol := n; Modularity.w_rows := perm_wrows p (Modularity.w_rows m) |}
+    (perm_vec 0%nat p labels) labels_col wk gamma = Modularity.MOk (md, ft, dv) ->
+  (md == match wk with
+         | Modularity.Degree => Modularity.spec_modularity (Modularity.w_rows m) labels gamma
+         | Modularity.Uniform => Modularity.spec_modularity_uniform (Modularity.w_rows m) labels gamma
+         end)%Q /\ (ft == Modularity.spec_fit (Modularity.w_rows m) labels)%Q.
+Proof.
+  exact (EquivarianceProofs.EqB_Mod.modularity_invariant_spec n p Hp m labels labels_col wk gamma md ft dv).
+Qed.
+Print Assumptions modularity_renumbered_is_spec.
+
+(** Non-vacuity: a directed weighted graph on 3 nodes (one duplicated entry), p = [2; 0; 1]. *)
+Example c02_modularity_nonvacuous :
+  let p := [2; 0; 1] in
+  let g := [[(1, 1%Q); (2, 2%Q); (1, (1 # 2)%Q)]; [(0, 1%Q); (2, (1 # 2)%Q)]; [(0, 2%Q)]] in
+  let m := {| Modularity.w_ncol := 3; Modularity.w_rows := g |} in
+  let m' := {| Modularity.w_ncol := 3; Modularity.w_rows := perm_wrows p g |} in
+  let labels := [0; 0; 1] in
+  Permutation p (seq 0 3) /\ Modularity.w_nrow m = 3 /\ Modularity.wf_wgraph g /\
+  perm_wrows p g = [[(2, 1%Q); (1, (1 # 2)%Q)]; [(2, 2%Q)]; [(0, 1%Q); (1, 2%Q); (0, (1 # 2)%Q)]] /\
+  perm_vec 0%nat p labels = [0; 1; 0] /\
+  Modularity.get_modularity m labels None Modularity.Degree 1%Q
+    = Modularity.MOk ((-10 # 49)%Q, (5 # 14)%Q, (55 # 98)%Q) /\
+  Modularity.get_modularity m' (perm_vec 0%nat p labels) None Modularity.Degree 1%Q
+    = Modularity.MOk ((-10 # 49)%Q, (5 # 14)%Q, (55 # 98)%Q) /\
+  Modularity.get_modularity m labels None Modularity.Uniform (1 # 2)%Q
+    = Modularity.MOk ((5 # 63)%Q, (5 # 14)%Q, (5 # 9)%Q) /\
+  Modularity.get_modularity m' (perm_vec 0%nat p labels) None Modularity.Uniform (1 # 2)%Q
+    = Modularity.MOk ((5 # 63)%Q, (5 # 14)%Q, (5 # 9)%Q) /\
+  (Modularity.spec_modularity (perm_wrows p g) (perm_vec 0%nat p labels) 1 == -10 # 49)%Q.
+Proof.
+  cbv zeta. split; [|split; [|split]].
+  - apply NoDup_Permutation; [repeat constructor; simpl; intuition lia | apply seq_NoDup |].
+    intros x. simpl. intuition lia.
+  - reflexivity.
+  - apply ModularityProofs.wf_wgraphb_ok. vm_compute. reflexivity.
+  - repeat split; vm_compute; reflexivity.
+Qed.
+
+(** ** 15.2 Dasgupta cost (Model/Dendrogram.v, Model/Cuts.v).
+    The graph is a COO list of edges (u, v, weight); the dendrogram has one row (left, right, height,
+    size) per merge, a child id below n being a LEAF (a node) and n + t the cluster made by row t.
+    The permutation action on this model ([EquivarianceProofs.EqB_Das]):
+      [relabel_id n p c]         = p[c] for a leaf c < n, c otherwise;
+      [relabel_dendrogram n p D] = every child id relabelled, heights and sizes kept;
+      [relabel_edges p G]        = both endpoints mapped by p, weights kept. *)
+
+(** Validity does not depend on the numbering of the leaves. *)
+Theorem dendrogram_valid_renumbered (n : nat) (p : list nat) (Hp : Permutation p (seq 0 n))
+        (D : Dendrogram.dendrogram) :
+  Dendrogram.valid n (EquivarianceProofs.EqB_Das.relabel_dendrogram n p D) = Dendrogram.valid n D.
+Proof. exact (EquivarianceProofs.EqB_Das.valid_relabel n p Hp D). Qed.
+Print Assumptions dendrogram_valid_renumbered.
+
+(** Leaf sets, the clusters of the tree and the smallest cluster containing two nodes are renumbered. *)
+Theorem dendrogram_leaves_renumbered (n : nat) (p : list nat) (Hp : Permutation p (seq 0 n))
+        (D : Dendrogram.dendrogram) (c : nat) :
+  Dendrogram.valid n D = true -> c < n + length D ->
+  Dendrogram.leaves n (EquivarianceProofs.EqB_Das.relabel_dendrogram n p D) (EquivarianceProofs.EqB_Das.relabel_id n p c)
+  = map (nthn p) (Dendrogram.leaves n D c).
+Proof. exact (EquivarianceProofs.EqB_Das.leaves_relabel_valid n p Hp D c). Qed.
+Print Assumptions dendrogram_leaves_renumbered.
+
+Theorem tree_clusters_renumbered (n : nat) (p : list nat) (Hp : Permutation p (seq 0 n))
+        (D : Dendrogram.dendrogram) :
+  Dendrogram.valid n D = true ->
+  Cuts.tree_clusters n (EquivarianceProofs.EqB_Das.relabel_dendrogram n p D) = map (map (nthn p)) (Cuts.tree_clusters n D).
+Proof. exact (EquivarianceProofs.EqB_Das.tree_clusters_relabel_valid n p Hp D). Qed.
+Print Assumptions tree_clusters_renumbered.
+
+Theorem smallest_common_renumbered (n : nat) (p : list nat) (Hp : Permutation p (seq 0 n))
+        (D : Dendrogram.dendrogram) (u v : nat) :
+  Dendrogram.valid n D = true -> u < n -> v < n ->
+  Cuts.smallest_common n (EquivarianceProofs.EqB_Das.relabel_dendrogram n p D) (nthn p u) (nthn p v)
+  = map (nthn p) (Cuts.smallest_common n D u v).
+Proof. exact (EquivarianceProofs.EqB_Das.smallest_common_relabel_valid n p Hp D u v). Qed.
+Print Assumptions smallest_common_renumbered.
+
+(** Node and total weights of the edge list are renumbered (Leibniz: the same sums are built). *)
+Theorem edges_total_weight_renumbered (p : list nat) (G : Cuts.wgraph) :
+  Cuts.total_weight (EquivarianceProofs.EqB_Das.relabel_edges p G) = Cuts.total_weight G.
+Proof. exact (EquivarianceProofs.EqB_Das.total_weight_relabel p G). Qed.
+Print Assumptions edges_total_weight_renumbered.
+
+Theorem edges_out_weight_renumbered (n : nat) (p : list nat) (Hp : Permutation p (seq 0 n))
+        (G : Cuts.wgraph) (u : nat) :
+  (forall e, In e G -> Cuts.e_src e < n /\ Cuts.e_dst e < n) -> u < n ->
+  Cuts.out_weight (EquivarianceProofs.EqB_Das.relabel_edges p G) (nthn p u) = Cuts.out_weight G u.
+Proof. exact (EquivarianceProofs.EqB_Das.out_weight_relabel n p Hp G u). Qed.
+Print Assumptions edges_out_weight_renumbered.
+
+Theorem edges_in_weight_renumbered (n : nat) (p : list nat) (Hp : Permutation p (seq 0 n))
+        (G : Cuts.wgraph) (v : nat) :
+  (forall e, In e G -> Cuts.e_src e < n /\ Cuts.e_dst e < n) -> v < n ->
+  Cuts.in_weight (EquivarianceProofs.EqB_Das.relabel_edges p G) (nthn p v) = Cuts.in_weight G v.
+Proof. exact (EquivarianceProofs.EqB_Das.in_weight_relabel n p Hp G v). Qed.
+Print Assumptions edges_in_weight_renumbered.
+
+(** The specification of Dasgupta's cost (edge-weighted average of the size / volume of the smallest
+    common cluster) does not depend on the numbering of the nodes. *)
+Theorem dasgupta_spec_invariant (n : nat) (p : list nat) (Hp : Permutation p (seq 0 n))
+        (degree : bool) (G : Cuts.wgraph) (D : Dendrogram.dendrogram) :
+  Dendrogram.valid n D = true -> (forall e, In e G -> Cuts.e_src e < n /\ Cuts.e_dst e < n) ->
+  Cuts.dasgupta_spec degree n (EquivarianceProofs.EqB_Das.relabel_edges p G) (EquivarianceProofs.EqB_Das.relabel_dendrogram n p D)
+  = Cuts.dasgupta_spec degree n G D.
+Proof. exact (EquivarianceProofs.EqB_Das.dasgupta_spec_invariant_valid n p Hp degree G D). Qed.
+Print Assumptions dasgupta_spec_invariant.
+
+(** The CODED cost (replay of get_sampling_distributions over the AggregateGraph), under the premises
+    of C08 dasgupta_is_lca_average for (G, D): both calls return, and return the SAME rational
+    (Leibniz equality), which is the specification. *)
+Theorem dasgupta_invariant (n : nat) (p : list nat) (Hp : Permutation p (seq 0 n))
+        (degree : bool) (G : Cuts.wgraph) (D : Dendrogram.dendrogram) :
+  Dendrogram.valid n D = true ->
+  (forall e, In e G -> Cuts.e_src e < n /\ Cuts.e_dst e < n /\ Cuts.e_src e <> Cuts.e_dst e) ->
+  (0 < Cuts.total_weight G)%Q -> 2 <= n -> G <> [] ->
+  exists c,
+    Cuts.dasgupta_cost degree n G D false = Cuts.Ok c /\
+    Cuts.dasgupta_cost degree n (EquivarianceProofs.EqB_Das.relabel_edges p G) (EquivarianceProofs.EqB_Das.relabel_dendrogram n p D) false
+      = Cuts.Ok c /\
+    (c == Cuts.dasgupta_spec degree n G D)%Q.
+Proof. exact (EquivarianceProofs.EqB_Das.dasgupta_invariant n p Hp degree G D). Qed.
+Print Assumptions dasgupta_invariant.
+
+(** The same for the normalised cost and for dasgupta_score = 1 - normalised cost. *)
+Theorem dasgupta_normalized_invariant (n : nat) (p : list nat) (Hp : Permutation p (seq 0 n))
+        (degree : bool) (G : Cuts.wgraph) (D : Dendrogram.dendrogram) :
+  Dendrogram.valid n D = true ->
+  (forall e, In e G -> Cuts.e_src e < n /\ Cuts.e_dst e < n /\ Cuts.e_src e <> Cuts.e_dst e) ->
+  (0 < Cuts.total_weight G)%Q -> 2 <= n -> G <> [] ->
+  exists x,
+    Cuts.dasgupta_cost degree n G D true = Cuts.Ok x /\
+    Cuts.dasgupta_cost degree n (EquivarianceProofs.EqB_Das.relabel_edges p G) (EquivarianceProofs.EqB_Das.relabel_dendrogram n p D) true
+      = Cuts.Ok x.
+Proof. exact (EquivarianceProofs.EqB_Das.dasgupta_normalized_invariant n p Hp degree G D). Qed.
+Print Assumptions dasgupta_normalized_invariant.
+
+Theorem dasgupta_score_invariant (n : nat) (p : list nat) (Hp : Permutation p (seq 0 n))
+        (degree : bool) (G : Cuts.wgraph) (D : Dendrogram.dendrogram) :
+  Dendrogram.valid n D = true ->
+  (forall e, In e G -> Cuts.e_src e < n /\ Cuts.e_dst e < n /\ Cuts.e_src e <> Cuts.e_dst e) ->
+  (0 < Cuts.total_weight G)%Q -> 2 <= n -> G <> [] ->
+  exists s,
+    Cuts.dasgupta_score degree n G D = Cuts.Ok s /\
+    Cuts.dasgupta_score degree n (EquivarianceProofs.EqB_Das.relabel_edges p G) (EquivarianceProofs.EqB_Das.relabel_dendrogram n p D)
+      = Cuts.Ok s.
+Proof. exact (EquivarianceProofs.EqB_Das.dasgupta_score_invariant n p Hp degree G D). Qed.
+Print Assumptions dasgupta_score_invariant.
+
+(** Non-vacuity: the 5-leaf dendrogram and the graph of C08, renumbered by p = [2; 0; 1; 4; 3]. *)
+Example c02_dasgupta_nonvacuous :
+  let p := [2; 0; 1; 4; 3] in
+  let D := [(0, 1, 2%Q, 2); (2, 3, 1%Q, 2); (5, 4, 3%Q, 3); (6, 7, 4%Q, 5)] in
+  let G := [(0, 1, 1%Q); (1, 0, 1%Q); (1, 2, 2%Q); (2, 1, 2%Q); (0, 3, 1%Q); (3, 0, 1%Q); (3, 4, 3%Q); (4, 3, 3%Q)] in
+  let D' := EquivarianceProofs.EqB_Das.relabel_dendrogram 5 p D in
+  let G' := EquivarianceProofs.EqB_Das.relabel_edges p G in
+  Permutation p (seq 0 5) /\
+  (forall e, In e G -> Cuts.e_src e < 5 /\ Cuts.e_dst e < 5 /\ Cuts.e_src e <> Cuts.e_dst e) /\
+  Dendrogram.valid 5 D = true /\ Dendrogram.valid 5 D' = true /\
+  (0 < Cuts.total_weight G)%Q /\
+  D' = [(2, 0, 2%Q, 2); (1, 4, 1%Q, 2); (5, 3, 3%Q, 3); (6, 7, 4%Q, 5)] /\
+  G' = [(2, 0, 1%Q); (0, 2, 1%Q); (0, 1, 2%Q); (1, 0, 2%Q); (2, 4, 1%Q); (4, 2, 1%Q); (4, 3, 3%Q); (3, 4, 3%Q)] /\
+  Dendrogram.leaves 5 D 7 = [0; 1; 4] /\ Dendrogram.leaves 5 D' 7 = [2; 0; 3] /\
+  Cuts.smallest_common 5 D 1 2 = [2; 3; 0; 1; 4] /\ Cuts.smallest_common 5 D' 0 1 = [1; 4; 2; 0; 3] /\
+  Cuts.dasgupta_cost false 5 G D false = Cuts.Ok (32 # 7)%Q /\
+  Cuts.dasgupta_cost false 5 G' D' false = Cuts.Ok (32 # 7)%Q /\
+  Cuts.dasgupta_cost true 5 G D false = Cuts.Ok (89 # 7)%Q /\
+  Cuts.dasgupta_cost true 5 G' D' false = Cuts.Ok (89 # 7)%Q /\
+  Cuts.dasgupta_score false 5 G D = Cuts.Ok (3 # 35)%Q /\
+  Cuts.dasgupta_score false 5 G' D' = Cuts.Ok (3 # 35)%Q.
+Proof.
+  cbv zeta. split; [|split].
+  - apply NoDup_Permutation; [repeat constructor; simpl; intuition lia | apply seq_NoDup |].
+    intros x. simpl. intuition lia.
+  - intros e He. simpl in He.
+    repeat (destruct He as [<-|He]; [vm_compute; repeat split; (lia || discriminate)|]). destruct He.
+  - repeat split; vm_compute; reflexivity.
+Qed.
+
+(** ** 16. Heat diffusion and Dirichlet (Model/Diffusion.v) commute with renumbering.
+    Assumed throughout: [Permutation p (seq 0 n)], [length adj = n], column indices [< n]
+    ([Format.wf_rows n adj]; implied by [Diffusion.wf_rows n adj], non-negativity is NOT needed).
+    No hypothesis on the lengths of [border], [temps], [v].  All equalities are Leibniz: the model
+    stores [Qred] of every product. *)
+
+(** [normalize] (row-wise L1 normalisation) commutes exactly with P . P^T; no hypothesis. *)
+Theorem diffusion_normalize_perm (p : list nat) (adj : list Diffusion.wrow) :
+  Diffusion.normalize (perm_wrows p adj) = perm_wrows p (Diffusion.normalize adj).
+Proof. exact (EquivarianceProofs.EqC.normalize_perm p adj). Qed.
+Print Assumptions diffusion_normalize_perm.
+
+(** The reducing product [Diffusion.matvec] (it stores [Qred (row . v)]) commutes with renumbering. *)
+Theorem diffusion_model_matvec_perm (n : nat) (p : list nat) (Hp : Permutation p (seq 0 n))
+        (a : list Diffusion.wrow) (x : list Q) :
+  wf_rows n a ->
+  Diffusion.matvec (perm_wrows p a) (perm_vecq p x) = perm_vecq p (Diffusion.matvec a x).
+Proof. exact (EquivarianceProofs.EqC.dmatvec_perm n p Hp a x). Qed.
+Print Assumptions diffusion_model_matvec_perm.
+
+(** One Dirichlet step (product with the transition matrix, then re-imposing the boundary values). *)
+Theorem dirichlet_step_equivariant (n : nat) (p : list nat) (Hp : Permutation p (seq 0 n))
+        (P : list Diffusion.wrow) (border : list bool) (temps v : list Q) :
+  length P = n -> wf_rows n P ->
+  Diffusion.dirichlet_step (perm_wrows p P) (perm_vecb p border) (perm_vecq p temps) (perm_vecq p v)
+  = perm_vecq p (Diffusion.dirichlet_step P border temps v).
+Proof. exact (EquivarianceProofs.EqC.dirichlet_step_perm n p Hp P border temps v). Qed.
+Print Assumptions dirichlet_step_equivariant.
+
+(** Dirichlet.fit's iteration, any number of iterations. *)
+Theorem dirichlet_core_equivariant (n : nat) (p : list nat) (Hp : Permutation p (seq 0 n))
+        (n_iter : nat) (adj : list Diffusion.wrow) (border : list bool) (temps : list Q) :
+  length adj = n -> wf_rows n adj ->
+  Diffusion.dirichlet_core n_iter (perm_wrows p adj) (perm_vecb p border) (perm_vecq p temps)
+  = perm_vecq p (Diffusion.dirichlet_core n_iter adj border temps).
+Proof. exact (EquivarianceProofs.EqC.dirichlet_core_perm n p Hp n_iter adj border temps). Qed.
+Print Assumptions dirichlet_core_equivariant.
+
+(** Diffusion.fit's operator (1-a) I + a normalize(A^T) (identity on null rows).  Transposing the
+    renumbered matrix lists the stored entries of a row in ANOTHER ORDER (and the row norms are sums
+    in another order): row p(i) of the new operator and the renumbered row i of the old one agree up to
+    a permutation of the stored entries and [==] on the weights; the reduced products are equal. *)
+Theorem diffusion_operator_row_equivariant (n : nat) (p : list nat) (Hp : Permutation p (seq 0 n))
+        (alpha : Q) (adj : list Diffusion.wrow) (i : nat) :
+  length adj = n -> wf_rows n adj -> i < n ->
+  exists m,
+    Permutation (Diffusion.wrow_of (Diffusion.diffusion_operator alpha (perm_wrows p adj)) (nthn p i)) m /\
+    Forall2 (fun e e' : nat * Q => fst e = fst e' /\ (snd e == snd e')%Q) m
+            (map (fun e : nat * Q => (nthn p (fst e), snd e))
+                 (Diffusion.wrow_of (Diffusion.diffusion_operator alpha adj) i)).
+Proof. exact (EquivarianceProofs.EqC.diffusion_operator_row_perm n p Hp alpha adj i). Qed.
+Print Assumptions diffusion_operator_row_equivariant.
+
+Theorem diffusion_step_equivariant (n : nat) (p : list nat) (Hp : Permutation p (seq 0 n))
+        (alpha : Q) (adj : list Diffusion.wrow) (v : list Q) :
+  length adj = n -> wf_rows n adj ->
+  Diffusion.matvec (Diffusion.diffusion_operator alpha (perm_wrows p adj)) (perm_vecq p v)
+  = perm_vecq p (Diffusion.matvec (Diffusion.diffusion_operator alpha adj) v).
+Proof. exact (EquivarianceProofs.EqC.diffusion_matvec_perm n p Hp alpha adj v). Qed.
+Print Assumptions diffusion_step_equivariant.
+
+Theorem diffusion_core_equivariant (n : nat) (p : list nat) (Hp : Permutation p (seq 0 n))
+        (n_iter : nat) (alpha : Q) (adj : list Diffusion.wrow) (temps : list Q) :
+  length adj = n -> wf_rows n adj ->
+  Diffusion.diffusion_core n_iter alpha (perm_wrows p adj) (perm_vecq p temps)
+  = perm_vecq p (Diffusion.diffusion_core n_iter alpha adj temps).
+Proof. exact (EquivarianceProofs.EqC.diffusion_core_perm n p Hp n_iter alpha adj temps). Qed.
+Print Assumptions diffusion_core_equivariant.
+
+(** init_temperatures: boundary = seeds >= 0; free nodes start at [init] or at the mean of the seeds
+    (a reduced sum over a rearrangement of the same list). *)
+Theorem init_temperatures_equivariant (n : nat) (p : list nat) (Hp : Permutation p (seq 0 n))
+        (seeds : list Q) (init : option Q) (temps : list Q) (border : list bool) :
+  length seeds = n ->
+  Diffusion.init_temperatures seeds init = Diffusion.Ok (temps, border) ->
+  Diffusion.init_temperatures (perm_vecq p seeds) init
+  = Diffusion.Ok (perm_vecq p temps, perm_vecb p border).
+Proof. exact (EquivarianceProofs.EqC.init_temperatures_perm n p Hp seeds init temps border). Qed.
+Print Assumptions init_temperatures_equivariant.
+
+(** The whole [fit] (square matrix, seeds as an array of length n, no bipartite treatment): check_format,
+    get_adjacency_values, init_temperatures, the iteration, _split_vars. *)
+Theorem dirichlet_fit_equivariant (n : nat) (p : list nat) (Hp : Permutation p (seq 0 n))
+        (n_iter : nat) (m : Diffusion.wmat) (l : list Q) (init : option Q) (v : list Q) :
+  Diffusion.w_nrow m = n -> Diffusion.w_ncol m = n -> wf_rows n (Diffusion.w_rows m) ->
+  Diffusion.dirichlet_fit n_iter m (Some (Diffusion.SArray l)) None None init false = Diffusion.Ok (v, None) ->
+  Diffusion.dirichlet_fit n_iter
+    {| Diffusion.w_ncol := Diffusion.w_ncol m; Diffusion.w_rows := perm_wrows p (Diffusion.w_rows m) |}
+    (Some (Diffusion.SArray (perm_vecq p l))) None None init false
+  = Diffusion.Ok (perm_vecq p v, None).
+Proof. exact (EquivarianceProofs.EqC.dirichlet_fit_perm n p Hp n_iter m l init v). Qed.
+Print Assumptions dirichlet_fit_equivariant.
+
+Theorem diffusion_fit_equivariant (n : nat) (p : list nat) (Hp : Permutation p (seq 0 n))
+        (n_iter : nat) (alpha : Q) (m : Diffusion.wmat) (l : list Q) (init : option Q) (v : list Q) :
+  Diffusion.w_nrow m = n -> Diffusion.w_ncol m = n -> wf_rows n (Diffusion.w_rows m) ->
+  Diffusion.diffusion_fit n_iter alpha m (Some (Diffusion.SArray l)) None None init false = Diffusion.Ok (v, None) ->
+  Diffusion.diffusion_fit n_iter alpha
+    {| Diffusion.w_ncol := Diffusion.w_ncol m; Diffusion.w_rows := perm_wrows p (Diffusion.w_rows m) |}
+    (Some (Diffusion.SArray (perm_vecq p l))) None None init false
+  = Diffusion.Ok (perm_vecq p v, None).
+Proof. exact (EquivarianceProofs.EqC.diffusion_fit_perm n p Hp n_iter alpha m l init v). Qed.
+Print Assumptions diffusion_fit_equivariant.
+
+(** The SPECIFICATION (textbook Dirichlet problem: f = seeds on the boundary, weighted mean of the
+    neighbours elsewhere) is equivariant... *)
+Theorem harmonic_equivariant (n : nat) (p : list nat) (Hp : Permutation p (seq 0 n))
+        (adj : list Diffusion.wrow) (border : list bool) (temps f : list Q) :
+  length adj = n -> wf_rows n adj ->
+  Diffusion.harmonic adj border temps f ->
+  Diffusion.harmonic (perm_wrows p adj) (perm_vecb p border) (perm_vecq p temps) (perm_vecq p f).
+Proof. exact (EquivarianceProofs.EqC.harmonic_perm n p Hp adj border temps f). Qed.
+Print Assumptions harmonic_equivariant.
+
+(** ... the hypotheses of the uniqueness theorems of C14 transport to the renumbered graph ... *)
+Theorem diffusion_wf_rows_perm (n : nat) (p : list nat) (Hp : Permutation p (seq 0 n))
+        (adj : list Diffusion.wrow) :
+  Diffusion.wf_rows n adj -> Diffusion.wf_rows n (perm_wrows p adj).
+Proof. exact (EquivarianceProofs.EqC.diffusion_wf_perm n p Hp adj). Qed.
+Print Assumptions diffusion_wf_rows_perm.
+
+Theorem connected_equivariant (n : nat) (p : list nat) (Hp : Permutation p (seq 0 n))
+        (adj : list Diffusion.wrow) :
+  length adj = n -> Diffusion.wf_rows n adj ->
+  Diffusion.connected adj -> Diffusion.connected (perm_wrows p adj).
+Proof. exact (EquivarianceProofs.EqC.connected_perm n p Hp adj). Qed.
+Print Assumptions connected_equivariant.
+
+Theorem reaches_border_equivariant (n : nat) (p : list nat) (Hp : Permutation p (seq 0 n))
+        (adj : list Diffusion.wrow) (border : list bool) :
+  length adj = n -> Diffusion.wf_rows n adj ->
+  DiffusionProofs.reaches_border adj border ->
+  DiffusionProofs.reaches_border (perm_wrows p adj) (perm_vecb p border).
+Proof. exact (EquivarianceProofs.EqC.reaches_border_perm n p Hp adj border). Qed.
+Print Assumptions reaches_border_equivariant.
+
+(** ... hence the harmonic solution of the renumbered problem IS the renumbered harmonic solution
+    (hypotheses on the ORIGINAL graph only; non-negative weights are needed by uniqueness). *)
+Theorem harmonic_solution_equivariant (n : nat) (p : list nat) (Hp : Permutation p (seq 0 n))
+        (adj : list Diffusion.wrow) (border : list bool) (temps h g : list Q) :
+  length adj = n -> Diffusion.wf_rows n adj -> Diffusion.connected adj ->
+  (exists s, s < n /\ nthb border s = true) ->
+  Diffusion.harmonic adj border temps h ->
+  Diffusion.harmonic (perm_wrows p adj) (perm_vecb p border) (perm_vecq p temps) g ->
+  forall i, i < n -> (nthq g (nthn p i) == nthq h i)%Q.
+Proof. exact (EquivarianceProofs.EqC.harmonic_solution_perm_connected n p Hp adj border temps h g). Qed.
+Print Assumptions harmonic_solution_equivariant.
+
+Theorem harmonic_solution_equivariant_reach (n : nat) (p : list nat) (Hp : Permutation p (seq 0 n))
+        (adj : list Diffusion.wrow) (border : list bool) (temps h g : list Q) :
+  length adj = n -> Diffusion.wf_rows n adj -> DiffusionProofs.reaches_border adj border ->
+  Diffusion.harmonic adj border temps h ->
+  Diffusion.harmonic (perm_wrows p adj) (perm_vecb p border) (perm_vecq p temps) g ->
+  forall k, k < n -> (nthq g k == nthq (perm_vecq p h) k)%Q.
+Proof. exact (EquivarianceProofs.EqC.harmonic_solution_perm_reach n p Hp adj border temps h g). Qed.
+Print Assumptions harmonic_solution_equivariant_reach.
+
+(** Non-vacuity: the weighted graph of C14 (path with a chord, 4 nodes, seeds 0 and 3 at nodes 0 and 3)
+    renumbered by p = [2; 0; 3; 1]. *)
+Definition exC_adj : list Diffusion.wrow :=
+  [ [(1, 2%Q)];
+    [(0, 2%Q); (2, 1%Q); (3, 1%Q)];
+    [(1, 1%Q); (3, 3%Q)];
+    [(1, 1%Q); (2, 3%Q)] ].
+Definition exC_m : Diffusion.wmat := {| Diffusion.w_ncol := 4; Diffusion.w_rows := exC_adj |}.
+Definition exC_seeds : list Q := [0; -1; -1; 3]%Q.
+Definition exC_p : list nat := [2; 0; 3; 1].
+
+Example partC_nonvacuous :
+  Permutation exC_p (seq 0 4) /\ length exC_adj = 4 /\ wf_rows 4 exC_adj /\
+  perm_wrows exC_p exC_adj
+    = [ [(2, 2%Q); (3, 1%Q); (1, 1%Q)]; [(0, 1%Q); (3, 3%Q)]; [(0, 2%Q)]; [(0, 1%Q); (1, 3%Q)] ] /\
+  perm_vecq exC_p exC_seeds = [-1; 3; 0; -1]%Q /\
+  Diffusion.dirichlet_fit 2 exC_m (Some (Diffusion.SArray exC_seeds)) None None None false
+    = Diffusion.Ok ([0; (45 # 32); (81 # 32); 3]%Q, None) /\
+  Diffusion.dirichlet_fit 2
+    {| Diffusion.w_ncol := 4; Diffusion.w_rows := perm_wrows exC_p exC_adj |}
+    (Some (Diffusion.SArray (perm_vecq exC_p exC_seeds))) None None None false
+    = Diffusion.Ok ([(45 # 32); 3; 0; (81 # 32)]%Q, None) /\
+  perm_vecq exC_p [0; (45 # 32); (81 # 32); 3]%Q = [(45 # 32); 3; 0; (81 # 32)]%Q /\
+  (exists v, Diffusion.diffusion_fit 2 (1 # 2)%Q exC_m (Some (Diffusion.SArray exC_seeds)) None None None false
+             = Diffusion.Ok (v, None) /\
+             Diffusion.diffusion_fit 2 (1 # 2)%Q
+               {| Diffusion.w_ncol := 4; Diffusion.w_rows := perm_wrows exC_p exC_adj |}
+               (Some (Diffusion.SArray (perm_vecq exC_p exC_seeds))) None None None false
+             = Diffusion.Ok (perm_vecq exC_p v, None) /\
+             v <> perm_vecq exC_p v) /\
+  Diffusion.harmonic_checkb exC_adj (map Diffusion.is_seed exC_seeds) exC_seeds [0; (7 # 5); (13 # 5); 3]%Q = true /\
+  Diffusion.harmonic_checkb (perm_wrows exC_p exC_adj) (perm_vecb exC_p (map Diffusion.is_seed exC_seeds))
+    (perm_vecq exC_p exC_seeds) (perm_vecq exC_p [0; (7 # 5); (13 # 5); 3]%Q) = true.
+Proof.
+  split; [|split; [|split]].
+  - apply NoDup_Permutation.
+    + unfold exC_p. repeat constructor; simpl; intuition lia.
+    + apply seq_NoDup.
+    + intros x. unfold exC_p. simpl. lia.
+  - reflexivity.
+  - unfold wf_rows, exC_adj. repeat constructor; simpl; lia.
+  - repeat (split; [vm_compute; reflexivity|]). split.
+    + eexists. split; [vm_compute; reflexivity|]. split; [vm_compute; reflexivity|].
+      vm_compute. discriminate.
+    + split; vm_compute; reflexivity.
+Qed.
